@@ -146,6 +146,13 @@ class EnvelopeWorld(World):
             "indep_sample": 0.03 if tier == "quick" else 0.06,
             "werror": rng.random() < 0.2,
         }
+        if tier == "thorough" and rng.random() < 0.25:
+            # deeper bounds in the thorough tier: longer histories, more signers
+            h["n_ops"] = rng.randint(45, 140)
+            if rng.random() < 0.3:
+                extra = rng.choice([24, 40])
+                h["key_seeds"] += [Hbytes("key+", rng.getrandbits(64), i).hex() for i in range(extra - len(h["key_seeds"]))]
+                h["n_keys"] = len(h["key_seeds"])
         return h
 
     def __init__(self, run, header):
@@ -510,6 +517,42 @@ class EnvelopeWorld(World):
         else:
             self.run.rejects += 1
 
+    def op_vs(self, op):
+        """Direct call of the raw single-signature primitive: valid exactly when the ledger holds that signature by that
+        key over exactly these bytes."""
+        e, i = op["env"], op["key"]
+        if e >= len(self.envs) or i >= len(self.keys) or self.keys.priv[i] is None:
+            return self.run.ev("noop")
+        E = self.envs[e]
+        ent = E["signatures"].get(self.keys.pub[i])
+        if not (isinstance(ent, dict) and isinstance(ent.get("signature"), str) and len(ent["signature"]) == 128):
+            return self.run.ev("noop")
+        sig = ent["signature"]
+        if op.get("flip") is not None:
+            pos = op["flip"] % 128
+            sig = sig[:pos] + ("0" if sig[pos] != "0" else "1") + sig[pos + 1:]
+        j = op.get("under", i)
+        j = j if j < len(self.keys) and self.keys.priv[j] is not None else i
+        data = refcanon(E["signed"])
+        if op.get("data") == "other":
+            data = data + b" "
+        elif op.get("data") == "bytearray":
+            data = bytearray(data)
+        try:
+            pub = self.lib.common.PublicKey.from_hex(self.keys.pub[j])
+        except (TypeError, ValueError):
+            return self.run.ev("noop")
+        o = self.calls.call("verify_signature", sig, pub, data)
+        valid = isinstance(data, bytes) and (self.keys.pub[j], __import__("hashlib").sha256(data).hexdigest(), sig) in self.ledger.raw
+        self.run.probe("vs_valid" if valid else "vs_invalid")
+        if o.ok != valid:
+            ind = isinstance(data, bytes) and rfc8032.verify(bytes.fromhex(self.keys.pub[j]), bytes(data), bytes.fromhex(sig))
+            if ind != valid:
+                raise HarnessError("raw primitive: ledger %r vs independent %r" % (valid, ind))
+            self.run.violate(("C01", "C09") if o.ok else ("C02", "C09"), "raw-primitive-wrong",
+                             "verify_signature %s although the signature is %s" % ("returned" if o.ok else "raised " + o.cls, "valid" if valid else "invalid"),
+                             "raw-primitive-wrong:" + ("accept" if o.ok else o.cls))
+
     def op_bulk_junk(self, op):
         """Many junk entries at once (a flooded signature map)."""
         import random
@@ -668,8 +711,20 @@ class EnvelopeWorld(World):
             return self._gen_verify(rng, e, E, gpg, dt)
         if r < 0.70:
             return {"op": "probe", "env": e, "auth": self._gen_auth(rng, E, wellformed=True), "gpg": gpg, "dt": dt}
-        if r < 0.76 and not gpg:
+        if r < 0.74 and not gpg:
             return {"op": "resign", "env": e, "key": rng.randrange(nk), "dt": dt}
+        if r < 0.76 and not gpg:
+            op = {"op": "vs", "env": e, "key": rng.randrange(nk), "dt": dt}
+            k = rng.random()
+            if k < 0.3:
+                op["flip"] = rng.randrange(128)
+            elif k < 0.5:
+                op["under"] = rng.randrange(nk)
+            elif k < 0.65:
+                op["data"] = "other"
+            elif k < 0.75:
+                op["data"] = "bytearray"
+            return op
         if r < 0.82:
             k = rng.randint(1, min(nk, 4))
             return {"op": "order_check", "payload": gen.gen_payload(rng, h.get("nonfinite", True)),
